@@ -87,8 +87,12 @@ def evaluate(
     stdout as a str.
   """
   # Set up the permission and context.
+  scope_permission = permissions.get_permission()
   if permission is None:
-    permission = permissions.get_permission()
+    permission = scope_permission
+  elif scope_permission is not None:
+    # An enclosing `pg.coding.permission` scope can only be narrowed.
+    permission = permission & scope_permission
   ctx = dict(get_context())
   if global_vars:
     ctx.update(global_vars)
